@@ -122,3 +122,54 @@ Lemma spec_transport :
                                gen_spec_quat_mat_4; gen_spec_quat_mat_5; gen_spec_quat_mat_6; gen_spec_quat_mat_7;
                                gen_spec_quat_mat_8] = mat_list (quat_mat u)).
 Proof. split; [exact gen_spec_rodrigues_ok|]. split; [exact gen_spec_quat_of_rotvec_ok | exact gen_spec_quat_mat_ok]. Qed.
+
+(* ---------------------------------------------------------------- growth round *)
+From CF Require Import C15.Heap.
+From CF Require Import C15.Proofs_sum.
+From CF Require Import C15.Proofs_views.
+
+Definition code_matches_model_2 : Prop :=
+  (forall P k, ev (pose_list P ++ [k]) gen_pose_scale = pose_list (pscale k P)) /\
+  (forall P, ev (pose_list P) gen_pose_matrix_vec = pose_list P) /\
+  (forall r t, ev (vec_list r ++ vec_list t) gen_pose_from_rot_vec = pose_list (pose_from_rotvec rodrigues r t)) /\
+  (forall u t, ev (quat_list u ++ vec_list t) gen_pose_from_quat = pose_list (pose_from_quat u t)) /\
+  ev [] gen_pose_from_rot_vec_default = pose_list pose_id /\
+  ev [] gen_pose_from_quat_default = pose_list pose_id /\
+  (forall r t, ev (vec_list r ++ vec_list t) gen_solver_params_to_pose = pose_list (pose_from_rotvec rodrigues r t)) /\
+  (forall bs_r bs_t cf_r cf_t s,
+      ev (vec_list bs_r ++ vec_list bs_t ++ vec_list cf_r ++ vec_list cf_t ++ vec_list s)
+         [gen_solver_poses_to_angle_pairs_0; gen_solver_poses_to_angle_pairs_1]
+      = [fst (solver_angle_pair bs_r bs_t cf_r cf_t s); snd (solver_angle_pair bs_r bs_t cf_r cf_t s)]) /\
+  (forall h v, ev [h; v] [gen_bsvs_projection_pair_row_0; gen_bsvs_projection_pair_row_1]
+               = [fst (projection h v); snd (projection h v)]) /\
+  (forall h v, ev [h; v] [gen_bsvs_angle_list_row_0; gen_bsvs_angle_list_row_1] = [h; v]) /\
+  (forall u, ev (quat_list u) [gen_spec_quat_to_rotvec_0; gen_spec_quat_to_rotvec_1; gen_spec_quat_to_rotvec_2]
+             = vec_list (quat_to_rotvec u)).
+
+Lemma code_matches_model_2_holds : code_matches_model_2.
+Proof.
+  unfold code_matches_model_2. destruct gen_pose_ctor_defaults_ok as [D1 D2]. destruct ctor_defaults_identity as [I1 I2].
+  split; [exact gen_pose_scale_ok|]. split; [exact gen_pose_matrix_vec_ok|]. split; [exact gen_pose_from_rot_vec_ok|].
+  split; [exact gen_pose_from_quat_ok|]. split; [rewrite D1, I1; reflexivity|]. split; [rewrite D2, I2; reflexivity|].
+  split; [exact gen_solver_params_to_pose_ok|]. split; [exact gen_solver_poses_to_angle_pairs_ok|].
+  split; [intros h v; apply gen_bsvs_lists_ok|]. split; [intros h v; apply gen_bsvs_lists_ok|].
+  exact gen_spec_quat_to_rotvec_ok.
+Qed.
+
+(* the solver's own parameter -> Pose conversion feeds the types' projection: the two paths of the property, both
+   as translated from the source, agree for every parameter row *)
+Lemma code_params_paths_agree bs_r bs_t cf_r cf_t s :
+  ev (vec_list bs_r ++ vec_list bs_t ++ vec_list cf_r ++ vec_list cf_t ++ vec_list s)
+     [gen_solver_poses_to_angle_pairs_0; gen_solver_poses_to_angle_pairs_1]
+  = ev (ev (ev (vec_list bs_r ++ vec_list bs_t) gen_solver_params_to_pose ++
+            ev (ev (vec_list cf_r ++ vec_list cf_t) gen_solver_params_to_pose ++ vec_list s)
+               [gen_pose_rotate_translate_0; gen_pose_rotate_translate_1; gen_pose_rotate_translate_2])
+           [gen_pose_inv_rotate_translate_0; gen_pose_inv_rotate_translate_1; gen_pose_inv_rotate_translate_2])
+       [gen_from_cart_0; gen_from_cart_1].
+Proof.
+  rewrite gen_solver_poses_to_angle_pairs_ok, !gen_solver_params_to_pose_ok.
+  rewrite (gen_pose_rotate_translate_ok (pose_from_rotvec rodrigues cf_r cf_t) s).
+  rewrite (gen_pose_inv_rotate_translate_ok (pose_from_rotvec rodrigues bs_r bs_t)).
+  rewrite ev_from_cart.
+  rewrite (projection_paths_agree rodrigues (fun r => eq_refl)). reflexivity.
+Qed.
